@@ -272,14 +272,22 @@ PROPS['C12'] = dict(
           'both timers and the resumed flag and puts every queued control, release and retained entry back at byte 0; the CONNECT is '
           'encoded into the free tail of the compacted arena and the encoder succeeds exactly when 5 + its length fits there, failing '
           'with BufferTooSmall before any byte is written otherwise; a successful CONNACK without properties is accepted in every '
-          'state. REFUTED for a full arena: C12_refuted_full_arena exhibits a reachable world (one unacknowledged PUBLISH in a 48-byte '
-          'arena) in which connect() over a healthy transport to a conformant broker fails and leaves the arena as full as before '
-          '(known finding K12). Tied to the code by a fault sweep (fail / zero / drop at every I/O index of generated histories, '
-          'including rejected, garbled, illegal and missing CONNACKs) ending in a connect() to a conformant automatic broker, with a '
-          'monitor that demands success, a whole CONNECT first, nothing partial carried over and a usable session.',
-    note='Partial: that connect() runs through write, flush and the CONNACK read on a healthy transport is established by the '
-         'correspondence and the monitor, not by a theorem over the I/O loop. Trusted: Coq kernel and VM (the refutation is computed), '
-         'model, extraction, harness incl. its conformant-broker mode, Python CONNACK conformance test. No axioms.')
+          'state; and — the whole of connect(), for EVERY world state, no reachability hypothesis — on a behaving transport '
+          'answered by a conformant broker, whenever the CONNECT fits behind the retained packets, connect() writes the CONNECT '
+          'in one call, flushes, pulls the CONNACK in through the packet reader (reads of 1, 1 and 3 bytes), decodes and accepts '
+          'it, and reports `resumed` exactly when the client held session state (C12_connect_succeeds, '
+          'C12_connect_action_succeeds; hypotheses shown satisfiable on a reachable state with a half-sent retained publish, '
+          'C12_connect_hyps_met). REFUTED for a full arena: C12_refuted_full_arena exhibits a reachable world (one unacknowledged '
+          'PUBLISH in a 48-byte arena) in which connect() over a healthy transport to a conformant broker fails and leaves the '
+          'arena as full as before (known finding K12). Tied to the code by a fault sweep (fail / zero / drop at every I/O index '
+          'of generated histories, including rejected, garbled, illegal and missing CONNACKs) ending in a connect() to a conformant '
+          'automatic broker, with a monitor that demands success, a whole CONNECT first, nothing partial carried over and a usable '
+          'session.',
+    note='The positive theorem covers the model broker of mode 2 (a bare CONNACK, reason 0, no properties, session-present = not '
+         'clean-start) on a transport that accepts every write whole; CONNACKs carrying properties and fragmented transports are '
+         'covered by the acceptance lemmas, the reader-confluence theorems of C15 and the correspondence sweep. Trusted: Coq kernel '
+         'and VM (the refutation and the non-vacuity example are computed), model, extraction, harness incl. its conformant-broker '
+         'mode, Python CONNACK conformance test. No axioms.')
 
 PROPS['C15'] = dict(
     codec=[('reader', 600, 10000)],
